@@ -1,1 +1,191 @@
 // Kani harnesses compiled inside rs-matter/src/sc/pase/spake2p.rs (module `verif_kani`).
+
+mod c02 {
+    use super::*;
+    use crate::crypto::backend::dummy::DummyCrypto;
+    use crate::crypto::{
+        CanonEcScalarRef, CanonPkcPublicKeyRef, CanonPkcSecretKeyRef, CanonUint320Ref,
+        CryptoSensitiveRef, HmacHash,
+    };
+    use core::cell::Cell;
+
+    /// A `Crypto` whose only usable operations are importing a point and asking whether it is a valid public
+    /// key; both have arbitrary outcomes. Every other operation panics: reaching one of them before the
+    /// share was accepted fails the harness ("nothing is derived from an unchecked share").
+    struct MockCrypto {
+        /// importing a point succeeds
+        import_ok: bool,
+        /// answer of `is_valid_pubkey`: `None` = the check itself fails
+        valid: Option<bool>,
+        imports: Cell<u8>,
+        checks: Cell<u8>,
+        imported: Cell<[u8; EC_CANON_POINT_LEN]>,
+    }
+
+    struct MockPoint<'a> {
+        owner: &'a MockCrypto,
+    }
+
+    impl Crypto for MockCrypto {
+        type Rand<'a> = DummyCrypto where Self: 'a;
+        type WeakRand<'a> = DummyCrypto where Self: 'a;
+        type Hash<'a> = DummyCrypto where Self: 'a;
+        type Hash1<'a> = DummyCrypto where Self: 'a;
+        type Hmac<'a> = DummyCrypto where Self: 'a;
+        type Kdf<'a> = DummyCrypto where Self: 'a;
+        type PbKdf<'a> = DummyCrypto where Self: 'a;
+        type Aead<'a> = DummyCrypto where Self: 'a;
+        type PublicKey<'a> = DummyCrypto where Self: 'a;
+        type SecretKey<'a> = DummyCrypto where Self: 'a;
+        type SigningSecretKey<'a> = DummyCrypto where Self: 'a;
+        type EcScalar<'a> = DummyCrypto where Self: 'a;
+        type EcPoint<'a> = MockPoint<'a> where Self: 'a;
+
+        fn rand(&self) -> Result<Self::Rand<'_>, Error> { unimplemented!() }
+        fn weak_rand(&self) -> Result<Self::WeakRand<'_>, Error> { unimplemented!() }
+        fn hash(&self) -> Result<Self::Hash<'_>, Error> { unimplemented!() }
+        fn hash1(&self) -> Result<Self::Hash1<'_>, Error> { unimplemented!() }
+        fn hmac<const KEY_LEN: usize>(&self, _key: CryptoSensitiveRef<'_, KEY_LEN>) -> Result<Self::Hmac<'_>, Error> { unimplemented!() }
+        fn kdf(&self) -> Result<Self::Kdf<'_>, Error> { unimplemented!() }
+        fn pbkdf(&self) -> Result<Self::PbKdf<'_>, Error> { unimplemented!() }
+        fn aead(&self) -> Result<Self::Aead<'_>, Error> { unimplemented!() }
+        fn pub_key(&self, _key: CanonPkcPublicKeyRef<'_>) -> Result<Self::PublicKey<'_>, Error> { unimplemented!() }
+        fn secret_key(&self, _key: CanonPkcSecretKeyRef<'_>) -> Result<Self::SecretKey<'_>, Error> { unimplemented!() }
+        fn generate_secret_key(&self) -> Result<Self::SecretKey<'_>, Error> { unimplemented!() }
+        fn singleton_singing_secret_key(&self) -> Result<Self::SigningSecretKey<'_>, Error> { unimplemented!() }
+        fn ec_scalar(&self, _scalar: CanonEcScalarRef<'_>) -> Result<Self::EcScalar<'_>, Error> { unimplemented!() }
+        fn ec_scalar_mod_p(&self, _uint: CanonUint320Ref<'_>) -> Result<Self::EcScalar<'_>, Error> { unimplemented!() }
+        fn generate_ec_scalar(&self) -> Result<Self::EcScalar<'_>, Error> { unimplemented!() }
+
+        fn ec_point(&self, point: CanonEcPointRef<'_>) -> Result<Self::EcPoint<'_>, Error> {
+            self.imports.set(self.imports.get().saturating_add(1));
+            self.imported.set(*point.access());
+            if self.import_ok {
+                Ok(MockPoint { owner: self })
+            } else {
+                Err(ErrorCode::InvalidData.into())
+            }
+        }
+
+        fn ec_generator_point(&self) -> Result<Self::EcPoint<'_>, Error> { unimplemented!() }
+    }
+
+    impl<'a> EcPoint<'a, EC_CANON_POINT_LEN, EC_CANON_SCALAR_LEN> for MockPoint<'a> {
+        type Scalar<'s> = DummyCrypto where Self: 'a + 's;
+
+        fn is_valid_pubkey(&self) -> Result<bool, Error> {
+            self.owner.checks.set(self.owner.checks.get().saturating_add(1));
+            match self.owner.valid {
+                Some(b) => Ok(b),
+                None => Err(ErrorCode::InvalidData.into()),
+            }
+        }
+
+        fn neg(&self) -> Result<Self, Error> { unimplemented!() }
+        fn mul(&self, _scalar: &Self::Scalar<'a>) -> Result<Self, Error> { unimplemented!() }
+        fn add_mul(&self, _s1: &Self::Scalar<'a>, _p2: &Self, _s2: &Self::Scalar<'a>) -> Result<Self, Error> { unimplemented!() }
+        fn write_canon(&self, _point: &mut CryptoSensitive<EC_CANON_POINT_LEN>) -> Result<(), Error> { unimplemented!() }
+    }
+
+    fn any_spake() -> Spake2P {
+        Spake2P {
+            local_sessid: kani::any(),
+            peer_sessid: kani::any(),
+            context_hash: Hash::from(kani::any::<[u8; HASH_LEN]>()),
+            ke: Spake2pKe::from(kani::any::<[u8; SPAKE2P_KE_LEN]>()),
+            ca: HmacHash::from(kani::any::<[u8; HMAC_HASH_LEN]>()),
+            cb: HmacHash::from(kani::any::<[u8; HMAC_HASH_LEN]>()),
+        }
+    }
+
+    type View = (u16, u16, [u8; HASH_LEN], [u8; SPAKE2P_KE_LEN], [u8; HMAC_HASH_LEN], [u8; HMAC_HASH_LEN]);
+
+    fn view(s: &Spake2P) -> View {
+        (s.local_sessid, s.peer_sessid, *s.context_hash.access(), *s.ke.access(), *s.ca.access(), *s.cb.access())
+    }
+
+    fn any_verifier() -> Spake2pVerifierData {
+        let salt_len: u8 = kani::any();
+        kani::assume(salt_len as usize <= SPAKE2P_VERIFIER_SALT_LEN);
+        Spake2pVerifierData {
+            password: if kani::any() { Some(Spake2pVerifierPassword::from(kani::any::<[u8; SPAKE2P_VERIFIER_PASSWORD_LEN]>())) } else { None },
+            verifier: Spake2pVerifierStr::from(kani::any::<[u8; SPAKE2P_VERIFIER_STR_LEN]>()),
+            salt: Spake2pVerifierSalt::from(kani::any::<[u8; SPAKE2P_VERIFIER_SALT_LEN]>()),
+            salt_len,
+            count: kani::any(),
+        }
+    }
+
+    /// Precondition: the primitive does not answer "valid public key" for the prover's share (it fails to
+    /// import it, fails to check it, or says it is not valid). Then `setup_verifier` is an error, the share it
+    /// asked about is the prover's, and neither Ke/cA/cB nor the outputs (pB, cB) were written.
+    // TIER: quick
+    // KIND: complete
+    #[kani::proof]
+    fn c02_setup_verifier_rejects_invalid_share_first() {
+        let crypto = MockCrypto {
+            import_ok: kani::any(),
+            valid: kani::any(),
+            imports: Cell::new(0),
+            checks: Cell::new(0),
+            imported: Cell::new([0; EC_CANON_POINT_LEN]),
+        };
+        kani::assume(!(crypto.import_ok && crypto.valid == Some(true)));
+
+        let mut s = any_spake();
+        let before = view(&s);
+        let verifier = any_verifier();
+        let share: [u8; EC_CANON_POINT_LEN] = kani::any();
+        let pb0: [u8; EC_CANON_POINT_LEN] = kani::any();
+        let cb0: [u8; HMAC_HASH_LEN] = kani::any();
+        let mut pb_out = CanonEcPoint::from(pb0);
+        let mut cb_out = HmacHash::from(cb0);
+
+        let r = s.setup_verifier(&crypto, &verifier, CanonEcPointRef::new(&share), &mut pb_out, &mut cb_out);
+
+        kani::assert(r.is_err(), "C02.spake.invalid_share_is_refused");
+        kani::assert(view(&s) == before, "C02.spake.refusal_leaves_ke_ca_cb_untouched");
+        kani::assert(*pb_out.access() == pb0 && *cb_out.access() == cb0, "C02.spake.refusal_emits_no_pb_cb");
+        kani::assert(crypto.imports.get() == 1 && crypto.imported.get() == share, "C02.spake.the_checked_point_is_the_share");
+        kani::assert(crypto.checks.get() == crypto.import_ok as u8, "C02.spake.validity_asked_once_when_imported");
+        if crypto.import_ok && crypto.valid == Some(false) {
+            kani::assert(matches!(&r, Err(e) if e.code() == ErrorCode::InvalidData), "C02.spake.not_valid_is_invalid_data");
+        }
+
+        kani::cover!(!crypto.import_ok, "share cannot be imported");
+        kani::cover!(crypto.import_ok && crypto.valid.is_none(), "validity check fails");
+        kani::cover!(crypto.import_ok && crypto.valid == Some(false), "identity / off-curve share");
+    }
+
+    /// `verify(cA)`: Ok exactly when the 32 bytes equal the stored confirmation value; then it hands out the
+    /// session ids and Ke of this handshake. Nothing is modified either way.
+    // TIER: quick
+    // KIND: complete
+    #[kani::proof]
+    #[kani::unwind(34)]
+    fn c02_verify_ok_iff_ca_matches() {
+        let mut s = any_spake();
+        let before = view(&s);
+        let ca: [u8; HMAC_HASH_LEN] = kani::any();
+
+        let r = s.verify(HmacHashRef::new(&ca));
+
+        let out = match &r {
+            Ok((l, p, ke)) => Some((*l, *p, *ke.access())),
+            Err(_) => None,
+        };
+        let refused_with_invalid_parameter = matches!(&r, Err(SCStatusCodes::InvalidParameter));
+        kani::assert(out.is_some() == (ca == before.4), "C02.spake.verify_ok_iff_ca_equal");
+        kani::assert(out.is_some() || refused_with_invalid_parameter, "C02.spake.verify_refusal_status");
+        kani::assert(
+            match out { Some((l, p, ke)) => l == before.0 && p == before.1 && ke == before.3, None => true },
+            "C02.spake.verify_returns_this_handshakes_ids_and_ke"
+        );
+        kani::assert(view(&s) == before, "C02.spake.verify_changes_nothing");
+
+        let i: usize = kani::any();
+        kani::assume(i < HMAC_HASH_LEN);
+        kani::cover!(out.is_some(), "confirmation accepted");
+        kani::cover!(out.is_none() && ca[i] != before.4[i] && (ca[i] ^ before.4[i]).count_ones() == 1, "one flipped bit refused");
+    }
+}
